@@ -979,6 +979,22 @@ def _can_del_all(self: fst.FST, field: str, options: Mapping[str, Any]) -> bool:
     return ast.__class__ is _ExceptHandlers or bool(ast.finalbody and not ast.orelse)  # field == 'handlers', an `else:` needs a handler before it
 
 
+def _swap_Try_TryStar(self: fst.FST, star: bool) -> None:
+    """Change `Try` <-> `TryStar` in place, the `FST` node remains the same and gets a new `AST` node."""
+
+    ast = self.a
+    new_type = TryStar if star else Try
+    new_ast = new_type(body=ast.body, handlers=ast.handlers, orelse=ast.orelse, finalbody=ast.finalbody,
+                       lineno=ast.lineno, col_offset=ast.col_offset,
+                       end_lineno=ast.end_lineno, end_col_offset=ast.end_col_offset)
+    new_ast.f = self  # FST remains same
+    self.a = new_ast  # point to new AST
+    ast.f = None  # clean up old AST
+
+    if pfield := self.pfield:  # if there is a parent then set new AST as the child replacing current child
+        pfield.set(self.parent.a, new_ast)
+
+
 # ......................................................................................................................
 
 def _get_slice_stmtlike_old(
@@ -1031,6 +1047,9 @@ def _get_slice_stmtlike_old(
 
         for i in range(start, len(body)):
             body[i].f.pfield = astfield(field, i)
+
+        if field == 'handlers' and not body and ast.__class__ is TryStar and ast.finalbody:  # no handlers left and source is a valid plain Try
+            _swap_Try_TryStar(self, False)
 
     if not one:
         if field == 'handlers':
@@ -1346,16 +1365,7 @@ def _put_slice_stmtlike_old(
         is_except_star = body[0].f.is_except_star() if body else False  # if no handler then we must change it to a Try if is TryStar
 
         if is_except_star != (ast_cls is TryStar):  # need to swap?
-            new_type = TryStar if is_except_star else Try
-            new_ast = new_type(body=ast.body, handlers=body, orelse=ast.orelse, finalbody=ast.finalbody,
-                               lineno=ast.lineno, col_offset=ast.col_offset,
-                               end_lineno=ast.end_lineno, end_col_offset=ast.end_col_offset)
-            new_ast.f = self  # FST remains same
-            self.a = new_ast  # point to new AST
-            ast.f = None  # clean up old AST
-
-            if pfield := self.pfield:  # if there is a parent then set new AST as the child replacing current child
-                pfield.set(self.parent.a, new_ast)
+            _swap_Try_TryStar(self, is_except_star)
 
     for i in range(start + put_len, len(body)):
         body[i].f.pfield = astfield(field, i)
